@@ -274,6 +274,7 @@ type Exec struct {
 	trusted         map[string]bool
 	executedInPlace map[*ssa.Function]bool
 	exclusions      map[string]Term
+	loopMaps        []*types.Map // map types updated in the loop being entered (scratch of loopEffects)
 	fvCells         map[string]*Cell
 	fvPtrs          map[*ssa.FreeVar]Val
 	immutKeys       map[string]bool
@@ -447,8 +448,33 @@ func (x *Exec) havocHeap(st *State, why string) {
 			keeps = append(keeps, keep{key, pr.Ref, Select(x.heapGet(st, key, sort), pr.Ref)})
 		}
 	}
+	// ... and the contents of the maps they hold (directly, or inside a struct-valued field)
+	var mapKeeps []keep
+	var addMaps func(T types.Type, v Term, depth int)
+	addMaps = func(T types.Type, v Term, depth int) {
+		switch u := T.Underlying().(type) {
+		case *types.Map:
+			hk, hs, vk, vs := x.mapComps(u)
+			mapKeeps = append(mapKeeps, keep{hk, v, Select(x.heapGet(st, hk, hs), v)}, keep{vk, v, Select(x.heapGet(st, vk, vs), v)})
+		case *types.Struct:
+			if depth > 2 {
+				return
+			}
+			si := x.te.Struct(T)
+			for i, ft := range si.FTypes {
+				addMaps(ft, si.Get(v, i), depth+1)
+			}
+		}
+	}
+	for _, pr := range x.privateRefs {
+		si := x.te.Struct(pr.T)
+		for i, ft := range si.FTypes {
+			key, sort := x.fieldComp(si, i)
+			addMaps(ft, Select(x.heapGet(st, key, sort), pr.Ref), 0)
+		}
+	}
 	defer func() {
-		for _, k := range keeps {
+		for _, k := range append(keeps, mapKeeps...) {
 			if cur, ok := st.heap[k.key]; ok {
 				st.assume(Eq(Select(cur, k.ref), k.old))
 			}
